@@ -367,6 +367,24 @@ class VwApiMode(vlib.Mode):
                     case.append(gen_http(rng, ids))
                 else:
                     case.append(("wsl " if rng.random() < 0.25 else "ws ") + hx(gen_cmd(rng, ids)))
+            if rng.random() < 0.3:
+                # the same rule id applied again with ONE member changed (token, file, stream or destination), through either interface:
+                # the listing must show the latest rule whichever member it was
+                import json as _json
+                rid, st, de = rng.choice(ids[:4]), rng.choice(STREAMS), rng.choice(DESTS)
+                r1 = {"id": rid, "stream": st, "destination": de}
+                if rng.random() < 0.6: r1["token"] = rng.choice(["tok-1", "ey.first"])
+                if rng.random() < 0.3: r1["file"] = rng.choice(FILES)
+                r2 = dict(r1)
+                which = rng.choice(["token", "token", "file", "stream", "destination"])
+                r2[which] = {"token": rng.choice(["tok-2", "ey.second", ""]), "file": rng.choice(FILES + [""]), "stream": rng.choice(STREAMS),
+                             "destination": rng.choice(DESTS)}[which]
+                for rule in (r1, r2):
+                    body = _json.dumps(rule).encode()
+                    if rng.random() < 0.6:
+                        case.append(f"http POST {hx('/api/destinations')} {hx(body)}")
+                    else:
+                        case.append("ws " + hx(b'{"verb":"add","what":"destination","rule":' + body + b'}'))
             # every case ends with the listings through all three interfaces
             case.append("ws " + hx(b'{"verb":"list","what":"destination","which":"all"}'))
             case.append("wsl " + hx(b'{"verb":"list","what":"stream","which":"all"}'))
@@ -465,11 +483,13 @@ class VwApiMode(vlib.Mode):
                 if o is not None and o.startswith("<<process died"):
                     fails.append(("crash", f"{self.pretty(l)} -> host process died: {o}"))
                 break
+            if o == "bad-op":
+                continue       # a line the harness does not accept (e.g. before `start` in a shrunk case): not an observation
             obs, lst, dec = split_out(o)
             if obs.startswith("panic"):
                 fails.append(("crash", f"{self.pretty(l)} -> {obs}")); break
             if obs.startswith("stuck") or lst is None:
-                fails.append(("stuck", f"{self.pretty(l)} -> no answer within 10 s ({o[:60]})")); break
+                fails.append(("stuck", f"{self.pretty(l)} -> no answer within 30 s ({o[:60]})")); break
             cur = (lst[0], lst[1])
             D = parse_listing(lst[0])
             if hx("deleteAll") in D or hx("deleteAll") in parse_listing(lst[1]):
@@ -547,6 +567,29 @@ class VwApiMode(vlib.Mode):
                     must_have = must_have and apikey in D     # HTTP deletes are not protected (local interface)
                 elif must_have and apikey not in D:
                     fails.append(("apirule-gone", f"{self.pretty(l)} removed apiRule"))
+            # an accepted re-application of a rule id must be what is listed afterwards: token and file of the latest rule
+            # (judged on the generator's own well-formed re-apply lines, recognisable by their json.dumps spelling)
+            body = None
+            if f[0] == "http" and len(f) >= 4 and f[1] == "POST" and unhx(f[2]) == b"/api/destinations" and f[3] != "-" and of[0] == "200":
+                body = unhx(f[3])
+            elif f[0] == "ws" and of[0] == "ok":
+                m_ = unhx(f[1])
+                if m_.startswith(b'{"verb":"add","what":"destination","rule":{"id": "') and not is_err:
+                    body = m_[len(b'{"verb":"add","what":"destination","rule":'):-1]
+            if body is not None and body.startswith(b'{"id": "') and not fails:
+                try:
+                    rule = json.loads(body.decode("utf-8"))
+                except Exception:
+                    rule = None
+                if isinstance(rule, dict) and hx(rule["id"]) in D:
+                    ent = D[hx(rule["id"])].split("/")
+                    if len(ent) >= 6:
+                        listed = rule_dict(ent[1:6])
+                        for k in ("token", "file"):
+                            if listed.get(k, "") != rule.get(k, ""):
+                                fails.append(("listing-not-latest-rule", f"{self.pretty(l)} was accepted, but the rule listed under id {rule['id']!r} has {k}={listed.get(k)!r} "
+                                              f"(the rule just applied says {rule.get(k, '')!r})"))
+                                break
             prev = cur
             if fails:
                 break
@@ -631,4 +674,27 @@ class VwStressMode(vlib.Mode):
 
 
 def modes(tier):
-    return [VwApiMode(), VwStressMode()]
+    # "… is re-created after a delete-all" means a rule that WORKS: the rwc histories of C16 that contain a delete-all (rules added after it
+    # must own a live connection again), judged here on that alone
+    import c16
+
+    class RwcAfterDeleteAll(c16.RwcMode):
+        KEEP = ("connection-missing", "crash", "stuck", "hub-stuck", "hub-crash")
+
+        def generate(self, rng, tier):
+            want = 10 if tier == "quick" else 150
+            out = []
+            for _ in range(want * 12):
+                case = self.gen_case(rng, tier, rng.choice([6, 9, 12]))
+                if any(l == "del " + hx(c16.RESERVED) for l in case):
+                    out.append(case)
+                if len(out) >= want:
+                    break
+            return out
+
+        def oracle(self, case, out):
+            return [x for x in c16.RwcMode.oracle(self, case, out) if x[0] in self.KEEP]
+
+    return [VwApiMode(), VwStressMode(), RwcAfterDeleteAll()]
+
+RULE = RULE + (" rwc mode (see C16), restricted to histories with a delete-all: every rule in force afterwards owns a live connection again.")
